@@ -68,3 +68,7 @@ def run(ctx):
     rep.extra['shortcut_paths_verified'] = sc
     rep.extra['compound_assignment_functions'] = n_assign
     rep.trust('helper summaries: ten_to_the*(k) = 10^k; normalized() preserves the value (its loop is not verified)')
+    if ctx.tier == 'thorough':
+        from rules import witness
+        nw = witness.run(rep, r'^W7')
+        rep.floor('type-level witnesses', nw, 1)
